@@ -33,6 +33,7 @@ TNext ==
   \/ Is("Kill") /\ Consume /\ Keep
        /\ obs' = [obs EXCEPT !.nkill = @ + 1, !.killAfterWait = @ /\ obs.nterm >= 1 /\ l > 1 /\ Evs[l - 1].e = "Waited" /\ Evs[l - 1].dt >= 9]
   \/ Is("Waited") /\ Consume /\ Keep /\ obs' = obs
+  \/ Is("Hung") /\ Consume /\ Keep /\ obs' = obs          \* the exit never returned (watchdog of the harness)
   \/ Is("Returned") /\ Consume /\ Keep /\ obs' = [obs EXCEPT !.returned = TRUE, !.dt = Ev.dt]
   \/ Is("ChildState") /\ Consume /\ Keep /\ obs' = [obs EXCEPT !.states = @ \cup {Ev.s}]
   \/ Is("FdDelta") /\ Consume /\ Keep /\ obs' = [obs EXCEPT !.fd = Ev.n]
